@@ -1154,11 +1154,16 @@ def lookup_reach_records(repo):
                     for b, (reg, pos) in readers:
                         flows, ids = fresh()
                         line = line_of[pos] if pos is not None else 10 * (len(order) + 5)
-                        tab = m.names_at(flows[reg], (line, 0))
                         nq += 1
                         b_in = (b, 'in') if b != 'after' else 'after'
+                        try:
+                            tab = m.names_at(flows[reg], (line, 0))
+                            found = {ident: m.describe(m.lookup(tab, ident)) for ident in names.values()}
+                        except InterpRaise as e:
+                            # the lookup itself raises: nothing is found (the crash is reported by the lookup scenarios / C08)
+                            found = {ident: None for ident in names.values()}
                         for a, ident in names.items():
-                            d = m.describe(m.lookup(tab, ident))
+                            d = found[ident]
                             sem_may = d is not None and ids[ident] in d
                             sem_dom = sem_may and 'UNDEF' not in d
                             a_out = (a, 'out')
